@@ -3,6 +3,7 @@ package props
 import (
 	"fmt"
 	"strings"
+	"sync"
 	"sync/atomic"
 
 	restful "github.com/emicklei/go-restful/v3"
@@ -52,10 +53,30 @@ func init() {
 	register("C02", c02)
 }
 
+// concurrentBatch sends the requests to one container from g goroutines released together;
+// check runs on the issuing goroutine (the collector is thread-safe).
+func concurrentBatch(c *restful.Container, entry string, reqs []rt.Req, g int, check func(i int, out *rt.Outcome)) {
+	var wg sync.WaitGroup
+	start := make(chan struct{})
+	for k := 0; k < g; k++ {
+		wg.Add(1)
+		go func(k int) {
+			defer wg.Done()
+			<-start
+			for i := k; i < len(reqs); i += g {
+				out := rt.Run(c, entry, &reqs[i])
+				check(i, out)
+			}
+		}(k)
+	}
+	close(start)
+	wg.Wait()
+}
+
 // c01: whenever a route function runs, the request is one its declaration admits.
 func c01(ctx *core.Ctx) {
 	quietLogs()
-	ctx.Rule("seeded tables (1-3 WebServices, variable/regex roots, literal/{v}/{v:re}/{v}suffix/{v:*}/:verb segments, Consumes/Produces, If-conditions) x requests (template-derived hits, single-mutation near misses, adversarial); both routers; Dispatch and ServeHTTP. Oracle runs on every route-function invocation. Non-trivial = an invocation or a refused near miss; distinct by (router, entry, template kind-shape, request class, outcome class).")
+	ctx.Rule("seeded tables (1-3 WebServices, every 4th container had its router switched back and forth first; variable/regex roots, literal/{v}/{v:re}/{v}suffix/{v:*}/:verb segments, Consumes/Produces, If-conditions) x requests (template-derived hits, single-mutation near misses, adversarial); both routers; Dispatch and ServeHTTP; every 3rd table also replays its requests from 8 concurrent goroutines. Oracle runs on every route-function invocation. Non-trivial = an invocation or a refused near miss; distinct by (router, entry, template kind-shape, request class, outcome class).")
 	ctx.Assume("reference matcher is three-valued; partial regex matches, empty segments and zero-length tail wildcards are not judged (DESIGN §4)",
 		"requests are hand-built http.Requests with consistent ContentLength/Content-Length")
 	tables := ctx.N(4000, 60000)
@@ -73,8 +94,10 @@ func c01(ctx *core.Ctx) {
 		ctx.Case(ti, "router="+router+" table="+core.JSON(t))
 		bo := rt.DefaultBuild(router)
 		bo.SelFilters = true
+		bo.Switched = ti%4 == 2
 		c := rt.Build(t, bo)
 		rr := ctx.Rand(ti, "req")
+		var reqs []rt.Req
 		for qi := 0; qi < perTable; qi++ {
 			req := rt.GenReq(rr, t, router)
 			entry := rt.Dispatch
@@ -84,6 +107,15 @@ func c01(ctx *core.Ctx) {
 			out := rt.Run(c, entry, &req)
 			ctx.Eval(1)
 			checkC01(ctx, ti, t, router, entry, &req, out)
+			reqs = append(reqs, req)
+		}
+		if ti%3 == 0 {
+			// the same oracle while 8 goroutines share the container (selection state must be per request)
+			concurrentBatch(c, rt.Dispatch, reqs, 8, func(i int, out *rt.Outcome) {
+				ctx.Eval(1)
+				ctx.Count("concurrent_requests", 1)
+				checkC01(ctx, ti, t, router, rt.Dispatch+"-concurrent", &reqs[i], out)
+			})
 		}
 	}
 }
@@ -174,7 +206,7 @@ func checkC01(ctx *core.Ctx, ti int, t *rt.Table, router, entry string, req *rt.
 // c02: totality and exact error classes.
 func c02(ctx *core.Ctx) {
 	quietLogs()
-	ctx.Rule("same generators as C01 plus an adversarial path/header pool. Each request is dispatched with trace logging off and on. Oracle: no panic, at most one invocation, outcome class (invoke/404/405+Allow/415/406) is one admitted by the reference staged elimination (best root under literal>variable and longer>prefix, weak mode when roots are incomparable or a variable root competes under RouterJSR311). Non-trivial = a judged request; distinct by (router, request class, reference stage, outcome class).")
+	ctx.Rule("same generators as C01 plus an adversarial path/header pool and extension methods (LOCK, UNLOCK, FIND, PROPFIND, OPTIONS routes). Each request is dispatched with trace logging off and on; every 3rd table replays its requests from 8 concurrent goroutines. Oracle: no panic, at most one invocation, outcome class (invoke/404/405+Allow/415/406) is one admitted by the reference staged elimination (best root under literal>variable and longer>prefix, weak mode when roots are incomparable or a variable root competes under RouterJSR311). Non-trivial = a judged request; distinct by (router, request class, reference stage, outcome class).")
 	ctx.Assume("cases whose classification depends on an unspecified match are counted in unspecified_skipped and get a totality verdict only",
 		"ServeHTTP is judged for totality only: net/http's mux rewrites unclean paths (DESIGN §4.9)")
 	tables := ctx.N(4000, 60000)
@@ -189,10 +221,15 @@ func c02(ctx *core.Ctx) {
 		}
 		router := routerOf(ti)
 		r := ctx.Rand(ti, "table")
-		t := rt.GenTable(r, fullGenOpts(router))
+		o := fullGenOpts(router)
+		o.OddMethods = true
+		t := rt.GenTable(r, o)
 		ctx.Case(ti, "router="+router+" table="+core.JSON(t))
-		c := rt.Build(t, rt.DefaultBuild(router))
+		bo := rt.DefaultBuild(router)
+		bo.Switched = ti%4 == 2
+		c := rt.Build(t, bo)
 		rr := ctx.Rand(ti, "req")
+		var reqs []rt.Req
 		for qi := 0; qi < perTable; qi++ {
 			req := rt.GenReq(rr, t, router)
 			if qi%5 == 4 {
@@ -200,9 +237,7 @@ func c02(ctx *core.Ctx) {
 				req.Path = rr.Pick([]string{"", "//", "/a//b", "a/b", "/a/b//", "/{x}", "/:", "/a:cancel", "/%2F", "/a/\x00", "/ü", "/a/*}", "/a\n/b", "/\xff\xfe"})
 				req.Class = "adv"
 			}
-			doc := func(out *rt.Outcome, want interface{}, note string) caseDoc {
-				return caseDoc{Router: router, Entry: rt.Dispatch, Table: t, Req: req, Obs: out, Want: want, Note: note}
-			}
+			reqs = append(reqs, req)
 			restful.EnableTracing(false)
 			out := rt.Run(c, rt.Dispatch, &req)
 			before := atomic.LoadInt64(&tap.n)
@@ -211,47 +246,14 @@ func c02(ctx *core.Ctx) {
 			restful.EnableTracing(false)
 			ctx.Count("trace_lines", int(atomic.LoadInt64(&tap.n)-before))
 			ctx.Eval(2)
-			if out.Panicked {
-				ctx.Violation(ti, "c02:panic:"+router, fmt.Sprintf("Dispatch panicked for %s %q: %s", req.Method, req.Path, out.Panic), doc(out, nil, "panic"))
-				continue
+			if outT.Panicked && !out.Panicked {
+				ctx.Violation(ti, "c02:panic-trace:"+router, fmt.Sprintf("Dispatch panicked with tracing on for %s %q: %s", req.Method, req.Path, outT.Panic),
+					caseDoc{Router: router, Entry: rt.Dispatch, Table: t, Req: req, Obs: outT, Note: "panic"})
+			} else if !out.Panicked && out.Sig() != outT.Sig() {
+				ctx.Violation(ti, "c02:trace-differs", "outcome differs with trace logging on: "+out.Sig()+" vs "+outT.Sig(),
+					caseDoc{Router: router, Entry: rt.Dispatch, Table: t, Req: req, Obs: outT, Want: out.Sig(), Note: "trace"})
 			}
-			if outT.Panicked {
-				ctx.Violation(ti, "c02:panic-trace:"+router, fmt.Sprintf("Dispatch panicked with tracing on for %s %q: %s", req.Method, req.Path, outT.Panic), doc(outT, nil, "panic"))
-				continue
-			}
-			if n := len(out.Obs.Invokes); n > 1 {
-				ctx.Violation(ti, "c02:multi-invoke", fmt.Sprintf("%d route functions ran for one request", n), doc(out, nil, "invocations"))
-			}
-			if out.Sig() != outT.Sig() {
-				ctx.Violation(ti, "c02:trace-differs", "outcome differs with trace logging on: "+out.Sig()+" vs "+outT.Sig(), doc(outT, out.Sig(), "trace"))
-			}
-			if out.Rec.WHCalls > 1 {
-				ctx.Violation(ti, "c02:two-status-lines", fmt.Sprintf("WriteHeader was called %d times", out.Rec.WHCalls), doc(out, nil, "status"))
-			}
-			preds, strong, verdict := rt.Predict(t, &req, router)
-			if !verdict {
-				ctx.Count("unspecified_skipped", 1)
-				ctx.SetAdd("totality_only_class", req.Class)
-			} else {
-				ctx.Count("class_judged", 1)
-				if strong {
-					ctx.Count("class_judged_strong", 1)
-				}
-				cls := out.Class()
-				stage := ""
-				if len(preds) > 0 {
-					stage = preds[0].Stage
-				}
-				ctx.Sig(fmt.Sprintf("%s|%s|%s|%s", router, strings.SplitN(req.Class, ":", 2)[0]+":"+lastPart(req.Class), stage, cls))
-				ctx.SetAdd("outcome_class", cls)
-				if !rt.Admits(preds, cls, out.RID(), out.Allow) {
-					ctx.Violation(ti, "c02:class:"+router+":want="+predClasses(preds)+":got="+cls,
-						fmt.Sprintf("%s %q (ct=%q accept=%q body=%d) answered %s allow=%v; reference admits %s", req.Method, req.Path, req.CT, req.Accept, req.BodyLen, out.Sig(), out.Allow, core.JSON(preds)), doc(out, preds, "class"))
-				}
-				if cls == rt.Cls405 && len(out.Rec.Hdr()["Allow"]) != 1 {
-					ctx.Violation(ti, "c02:allow-header-count", "405 without exactly one Allow header", doc(out, preds, "allow"))
-				}
-			}
+			judgeC02(ctx, ti, t, router, "", &req, out)
 			// totality through ServeHTTP on clean paths
 			if _, clean := rt.Tokens(req.Path); clean && qi%3 == 0 {
 				o2 := rt.Run(c, rt.ServeHTTP, &req)
@@ -262,10 +264,58 @@ func c02(ctx *core.Ctx) {
 					ctx.Violation(ti, "c02:multi-invoke-servehttp", "more than one route function ran", caseDoc{Router: router, Entry: rt.ServeHTTP, Table: t, Req: req, Obs: o2})
 				}
 			}
-			if ctx.WantSample() && verdict {
-				ctx.Sample(map[string]interface{}{"router": router, "request": req, "observed": out.Sig(), "reference": preds})
-			}
 		}
+		if ti%3 == 0 {
+			concurrentBatch(c, rt.Dispatch, reqs, 8, func(i int, out *rt.Outcome) {
+				ctx.Eval(1)
+				ctx.Count("concurrent_requests", 1)
+				judgeC02(ctx, ti, t, router, "-concurrent", &reqs[i], out)
+			})
+		}
+	}
+}
+
+// judgeC02 applies the totality and exact-class oracle to one observed outcome.
+func judgeC02(ctx *core.Ctx, ti int, t *rt.Table, router, mode string, req *rt.Req, out *rt.Outcome) {
+	doc := func(want interface{}, note string) caseDoc {
+		return caseDoc{Router: router, Entry: rt.Dispatch + mode, Table: t, Req: *req, Obs: out, Want: want, Note: note}
+	}
+	if out.Panicked {
+		ctx.Violation(ti, "c02:panic:"+router, fmt.Sprintf("Dispatch panicked for %s %q: %s", req.Method, req.Path, out.Panic), doc(nil, "panic"))
+		return
+	}
+	if n := len(out.Obs.Invokes); n > 1 {
+		ctx.Violation(ti, "c02:multi-invoke", fmt.Sprintf("%d route functions ran for one request", n), doc(nil, "invocations"))
+	}
+	if out.Rec.WHCalls > 1 {
+		ctx.Violation(ti, "c02:two-status-lines", fmt.Sprintf("WriteHeader was called %d times", out.Rec.WHCalls), doc(nil, "status"))
+	}
+	preds, strong, verdict := rt.Predict(t, req, router)
+	if !verdict {
+		ctx.Count("unspecified_skipped", 1)
+		ctx.SetAdd("totality_only_class", req.Class)
+		return
+	}
+	ctx.Count("class_judged", 1)
+	if strong {
+		ctx.Count("class_judged_strong", 1)
+	}
+	cls := out.Class()
+	stage := ""
+	if len(preds) > 0 {
+		stage = preds[0].Stage
+	}
+	ctx.Sig(fmt.Sprintf("%s|%s|%s|%s", router, req.Class, stage, cls))
+	ctx.SetAdd("outcome_class", cls)
+	if !rt.Admits(preds, cls, out.RID(), out.Allow) {
+		ctx.Violation(ti, "c02:class"+mode+":"+router+":want="+predClasses(preds)+":got="+cls,
+			fmt.Sprintf("%s %q (ct=%q accept=%q body=%d) answered %s; reference admits %s", req.Method, req.Path, req.CT, req.Accept, req.BodyLen, out.Sig(), core.JSON(preds)), doc(preds, "class"))
+	}
+	if cls == rt.Cls405 && len(out.Rec.Hdr()["Allow"]) != 1 {
+		ctx.Violation(ti, "c02:allow-header-count", "405 without exactly one Allow header", doc(preds, "allow"))
+	}
+	if ctx.WantSample() {
+		ctx.Sample(map[string]interface{}{"router": router, "request": req, "observed": out.Sig(), "reference": preds})
 	}
 }
 
